@@ -42,6 +42,11 @@ pub fn write_seed_corpus(dir: &std::path::Path, target: &str) {
                 let _ = std::fs::write(dir.join(format!("{i:05}")), b);
             }
         }
+        "sim_chaos" => {
+            for i in 0..300u64 {
+                let _ = std::fs::write(dir.join(format!("{i:05}")), Prng::new(i ^ 0xC03).bytes(24 + (i % 40) as usize));
+            }
+        }
         _ => {
             for i in 0..100u64 {
                 let _ = std::fs::write(dir.join(format!("{i:05}")), Prng::new(i ^ 0xC15).bytes(4 + (i % 16) as usize));
